@@ -30,7 +30,21 @@ def coveredTheorems : List String := [
   "C17_redir_no_panic",
   "C17_redir_fd_in_range",
   "C17_wcwidth_trim_no_panic",
-  "C17_lsp_answers_every_request"
+  "C17_lsp_answers_every_request",
+  -- round 2
+  "C17_docfind_merge_no_panic",
+  "C17_docfind_show_no_panic",
+  "C17_docfind_no_panic",
+  "C17_closure_src_fields_no_panic",
+  "C17_completion_replace_no_panic",
+  "C17_quote_no_panic",
+  "C17_assign_no_panic",
+  "C17_peach_interrupt_no_panic",
+  "C17_editor_events_no_panic",
+  "C17_highlight_no_panic",
+  "C17_highlight_late_no_panic",
+  "C17_md_emph_no_panic",
+  "C17_form_cleanup_no_nil_deref"
 ]
 
 end C17
